@@ -453,6 +453,14 @@ func (e *Env) declareField(key string) (SVal, error) {
 	if v, ok := e.St.Init[key]; ok {
 		return v, nil
 	}
+	if e.FieldType != nil && e.Recv != "" && strings.HasPrefix(key, e.Recv+".") {
+		// untouched on this path: its value is the initial one, now and before
+		if t := e.FieldType(strings.TrimPrefix(key, e.Recv+".")); t != nil {
+			if _, isFunc := t.Underlying().(*types.Signature); !isFunc {
+				return e.X.load(e.St, key, t, token.NoPos), nil
+			}
+		}
+	}
 	return SVal{}, fmt.Errorf("field %s not accessed on this path (declare its type with `field`)", key)
 }
 
